@@ -111,7 +111,7 @@ class World(object):
         if self.w['plots'] == 'stub':
             s.set(spec1d, 'plt', StubPlt())
             s.set(spec1d, 'FontProperties', _stub_fontproperties)
-        self._real_sdss_score = window.sdss_score
+        self._real_sdss_score = getattr(window, 'sdss_score', None)     # absent after a refactor: no stub then
         self._window = window
         self._spec1d = spec1d
         self.built = True
@@ -119,7 +119,8 @@ class World(object):
     def close(self):
         self.seams.restore()
         try:
-            self._window.sdss_score = self._real_sdss_score
+            if self._real_sdss_score is not None:
+                self._window.sdss_score = self._real_sdss_score
         except AttributeError:
             pass
         os.chdir(self._cwd0)
@@ -223,7 +224,7 @@ class World(object):
         log.disabled = True
         log.setLevel('INFO')
         self._spec1d.findspec_cache = None
-        if inv['entry'] != 'template_input':
+        if inv['entry'] != 'template_input' and self._real_sdss_score is not None:
             self._window.sdss_score = (_stub_sdss_score if inv.get('score') == 'stub'
                                        else self._real_sdss_score)
         os.chdir(self.rw)
